@@ -1284,3 +1284,243 @@ Proof.
   intros Hd Hr. apply in_domain_elim in Hd. destruct Hd as (Hne & g & HA & HB & Hrd).
   apply (@find_complete g rules (base_cache rules) (A, B) Hrd HA HB Hne (@cache_inv_base g rules Hrd) Hr).
 Qed.
+
+(* ================================================================= part 4: hooks with settings *)
+
+(* the limiter lets Wait(context.Background()) return nil: no limit, or a burst of at least 1 *)
+Definition admits (b : bucket) : bool :=
+  match b_limit b with None => true | Some _ => (1 <=? b_burst b)%Z end.
+
+Lemma wait_result b t b' g : rate_limit_wait b t = (b', g) ->
+  admits b' = admits b /\
+  (if admits b then exists t', g = Some t' /\ (t <= t')%Z else g = None).
+Proof.
+  unfold rate_limit_wait, admits. destruct (b_limit b) as [iv|] eqn:E.
+  - destruct (1 <=? b_burst b)%Z eqn:B; intros H; inversion H; subst; clear H.
+    + cbn [b_limit b_burst]. rewrite B. split; [reflexivity|]. eexists. split; [reflexivity|lia].
+    + rewrite E, B. split; reflexivity.
+  - intros H; inversion H; subst; clear H. rewrite E. split; [reflexivity|]. exists t. split; [reflexivity|lia].
+Qed.
+
+Theorem wait_admitted b t : admits b = true ->
+  exists b' t', rate_limit_wait b t = (b', Some t') /\ admits b' = true /\ (t <= t')%Z.
+Proof.
+  intros A. destruct (rate_limit_wait b t) as [b' g] eqn:W.
+  destruct (wait_result _ _ _ _ W) as [A' R]. rewrite A in R, A'. destruct R as (t' & -> & Ht).
+  exists b', t'. auto.
+Qed.
+
+Theorem wait_refused b t : admits b = false -> rate_limit_wait b t = (b, None).
+Proof.
+  unfold rate_limit_wait, admits. destruct (b_limit b); [|discriminate]. now intros ->.
+Qed.
+
+Theorem runnable_admits s : runnable s = true -> admits (create_rate_limiter s) = true.
+Proof.
+  destruct s as [[interval burst]|]; [|reflexivity].
+  unfold runnable, create_rate_limiter, new_limiter, admits, every; cbn [b_limit b_burst].
+  rewrite orb_true_iff, !Z.leb_le. intros H.
+  destruct (interval =? 0)%Z eqn:E0; [reflexivity|].
+  destruct (interval <=? 0)%Z eqn:E1; [reflexivity|].
+  apply Z.leb_gt in E1. apply Z.leb_le.
+  destruct (burst =? 0)%Z eqn:E2; [lia|]. apply Z.eqb_neq in E2. lia.
+Qed.
+
+Theorem unrunnable_refuses s : runnable s = false -> admits (create_rate_limiter s) = false.
+Proof.
+  destruct s as [[interval burst]|]; [|discriminate].
+  unfold runnable, create_rate_limiter, new_limiter, admits, every; cbn [b_limit b_burst].
+  rewrite orb_false_iff, !Z.leb_gt. intros [Hi Hb].
+  destruct (interval =? 0)%Z eqn:E0; [apply Z.eqb_eq in E0; lia|].
+  destruct (interval <=? 0)%Z eqn:E1; [apply Z.leb_le in E1; lia|].
+  apply Z.leb_gt. destruct (burst =? 0)%Z eqn:E2; [apply Z.eqb_eq in E2; lia|lia].
+Qed.
+
+Lemma lim_get_admits lims h : admits (lim_get lims h) = nth (N.to_nat h) (map admits lims) true.
+Proof.
+  unfold lim_get. change true with (admits (new_limiter None 1)). symmetry. apply map_nth.
+Qed.
+
+Lemma lim_set_admits b' : forall lims h, admits b' = admits (nth h lims (new_limiter None 1)) ->
+  map admits (lim_set_nat lims h b') = map admits lims.
+Proof.
+  induction lims as [|x lims IH]; intros h Hb; [reflexivity|].
+  destruct h as [|h]; cbn [lim_set_nat map nth] in *; [now rewrite Hb|]. now rewrite IH.
+Qed.
+
+(* the handler loop when each rule's hook either can run or never can: a function of the chain
+   and the outcomes alone - no limiter state, no clock *)
+Fixpoint steps_gate (gate : rule -> bool) (desired : version) (chain : list rule) (outs : list outcome)
+         (objs : list obj) : list invocation * stop :=
+  match chain with
+  | [] => ([], StNotDone)
+  | r :: rest =>
+    if gate r then
+      match hd OExitFail outs with
+      | OExitFail | OBadResponse => ([(r, objs)], StFailed MHookFailed)
+      | ONoResponse => ([(r, objs)], StFailed MPropError)
+      | OResp (c :: m) _ => ([(r, objs)], StFailed (MHook (c :: m)))
+      | OResp [] objs' =>
+        if is_done desired objs' then ([(r, objs)], StDone objs')
+        else let '(t, s) := steps_gate gate desired rest (tl outs) objs' in ((r, objs) :: t, s)
+      end
+    else ([], StFailed MPropError)
+  end.
+
+Definition review_of (dtext : bytes) (req : list obj) (s : stop) : review :=
+  handle_review (length req)
+    match s with
+    | StFailed MPropError => OpError (msg_text dtext MPropError)
+    | StFailed m => OpResponse (msg_text dtext m) []
+    | StDone objs => OpResponse [] objs
+    | StNotDone => OpResponse (msg_text dtext MNotSuccessful) []
+    end.
+
+Definition serve_gate (gate : rule -> bool) (dtext : bytes) (desired : version) (chain : list rule)
+           (outs : list outcome) (req : list obj) : list invocation * review :=
+  match extract req with
+  | [] => ([], handle_review (length req) (OpResponse (msg_text dtext MNotSuccessful) []))
+  | _ => let '(t, s) := steps_gate gate desired chain outs req in (t, review_of dtext req s)
+  end.
+
+Definition gate_of (rules : list rule) (owners : list N) (adm : list bool) (r : rule) : bool :=
+  nth (N.to_nat (owner_of rules owners r)) adm true.
+
+Lemma steps_gate_true gate desired : forall chain outs objs, (forall r, In r chain -> gate r = true) ->
+  steps_gate gate desired chain outs objs = steps desired chain outs objs.
+Proof.
+  induction chain as [|r rest IH]; intros outs objs G; [reflexivity|].
+  cbn [steps_gate steps]. rewrite (G r (or_introl eq_refl)).
+  destruct (hd OExitFail outs) as [| | |m objs']; try reflexivity.
+  destruct m as [|c m]; [|reflexivity].
+  destruct (is_done desired objs'); [reflexivity|].
+  rewrite IH; [reflexivity|]. intros r' Hr'. apply G. now right.
+Qed.
+
+Lemma serve_gate_true gate dtext desired chain outs req : (forall r, In r chain -> gate r = true) ->
+  serve_gate gate dtext desired chain outs req = serve dtext desired chain outs req.
+Proof.
+  intros G. unfold serve_gate, serve, event_handler, review_of.
+  destruct (extract req); [reflexivity|].
+  rewrite steps_gate_true by exact G.
+  destruct (steps desired chain outs req) as [t s].
+  destruct s as [m|objs|]; [destruct m|..]; reflexivity.
+Qed.
+
+(* the one induction over the real loop: what steps_lim does is steps_gate of "which hooks'
+   limiters admit", and that bit of every limiter is invariant *)
+Lemma steps_lim_gate rules owners desired : forall chain st outs objs t s st',
+  steps_lim rules owners st desired chain outs objs = (t, s, st') ->
+  steps_gate (gate_of rules owners (map admits (fst st))) desired chain outs objs = (t, s)
+  /\ map admits (fst st') = map admits (fst st).
+Proof.
+  induction chain as [|r rest IH]; intros st outs objs t s st' H.
+  - cbn [steps_lim] in H. inversion H; subst. split; reflexivity.
+  - cbn [steps_lim steps_gate] in H |- *. unfold hook_run_task in H.
+    set (h := owner_of rules owners r) in *.
+    destruct (rate_limit_wait (lim_get (fst st) h) (hd 0%Z (snd st))) as [b' g] eqn:W.
+    destruct (wait_result _ _ _ _ W) as [A' R].
+    assert (map admits (lim_set (fst st) h b') = map admits (fst st)) as Hset
+      by (apply lim_set_admits; exact A').
+    unfold gate_of at 1. fold h. rewrite <- lim_get_admits.
+    destruct (admits (lim_get (fst st) h)).
+    + destruct R as (t' & -> & _).
+      destruct (hd OExitFail outs) as [| | |m objs'];
+        try (inversion H; subst; cbn [fst]; split; [reflexivity|exact Hset]).
+      destruct m as [|c m]; [|inversion H; subst; cbn [fst]; split; [reflexivity|exact Hset]].
+      destruct (is_done desired objs'); [inversion H; subst; cbn [fst]; split; [reflexivity|exact Hset]|].
+      destruct (steps_lim rules owners (lim_set (fst st) h b', tl (snd st)) desired rest (tl outs) objs')
+        as [[t1 s1] st1] eqn:S1.
+      destruct (IH _ _ _ _ _ _ S1) as [G1 M1]. cbn [fst] in G1, M1.
+      rewrite Hset in G1. rewrite G1. inversion H; subst. split; [reflexivity|]. now rewrite M1.
+    + subst g. inversion H; subst. cbn [fst]. split; [reflexivity|exact Hset].
+Qed.
+
+Lemma serve_lim_gate rules owners st dtext desired chain outs req t a st' :
+  serve_lim rules owners st dtext desired chain outs req = (t, a, st') ->
+  serve_gate (gate_of rules owners (map admits (fst st))) dtext desired chain outs req = (t, a)
+  /\ map admits (fst st') = map admits (fst st).
+Proof.
+  unfold serve_lim, serve_gate. destruct (extract req).
+  - intros H; inversion H; subst. split; reflexivity.
+  - destruct (steps_lim rules owners st desired chain outs req) as [[t1 s1] st1] eqn:S1.
+    destruct (steps_lim_gate _ _ _ _ _ _ _ _ _ _ S1) as [G1 M1]. rewrite G1.
+    intros H; inversion H; subst. split; [reflexivity|exact M1].
+Qed.
+
+(* a session is request-by-request serve_gate of the initial "admits" bits *)
+Definition serve_q (gate : rule -> bool) (q : squery) : list invocation * review :=
+  let '(dtext, desired, chain, outs, req) := q in serve_gate gate dtext desired chain outs req.
+
+Lemma session_gate rules owners : forall qs st,
+  serve_session rules owners st qs = map (serve_q (gate_of rules owners (map admits (fst st)))) qs.
+Proof.
+  induction qs as [|q qs IH]; intros st; [reflexivity|].
+  destruct q as [[[[dtext desired] chain] outs] req]. cbn [serve_session map serve_q].
+  destruct (serve_lim rules owners st dtext desired chain outs req) as [[t a] st'] eqn:S.
+  destruct (serve_lim_gate _ _ _ _ _ _ _ _ _ _ _ S) as [G M]. rewrite G, IH, M. reflexivity.
+Qed.
+
+(* neither the clock nor the limiters' tokens matter: only which limiters admit *)
+Theorem session_state_irrelevant rules owners qs lims clock lims' clock' :
+  map admits lims = map admits lims' ->
+  serve_session rules owners (lims, clock) qs = serve_session rules owners (lims', clock') qs.
+Proof. intros E. rewrite !session_gate. cbn [fst]. now rewrite E. Qed.
+
+Definition serve_plain (q : squery) : list invocation * review :=
+  let '(dtext, desired, chain, outs, req) := q in serve dtext desired chain outs req.
+
+Lemma all_admit_nth lims : Forall (fun b => admits b = true) lims ->
+  forall n, nth n (map admits lims) true = true.
+Proof.
+  induction 1 as [|b lims Hb _ IH]; intros n; destruct n; cbn [map nth]; auto.
+Qed.
+
+(* rate limiting only delays: with limiters that admit, every request of the session gets
+   the trace and the answer it gets from hooks without settings *)
+Theorem session_admitted rules owners qs lims clock : Forall (fun b => admits b = true) lims ->
+  serve_session rules owners (lims, clock) qs = map serve_plain qs.
+Proof.
+  intros A. rewrite session_gate. cbn [fst]. apply map_ext. intros q.
+  destruct q as [[[[dtext desired] chain] outs] req]. cbn [serve_q serve_plain].
+  apply serve_gate_true. intros r _. unfold gate_of. now apply all_admit_nth.
+Qed.
+
+Lemma initial_limiters_admit hsets : settings_in_domain hsets = true ->
+  Forall (fun b => admits b = true) (initial_limiters hsets).
+Proof.
+  unfold settings_in_domain, initial_limiters. rewrite forallb_forall. intros H.
+  apply Forall_forall. intros b Hb. apply in_map_iff in Hb. destruct Hb as (s & <- & Hs).
+  apply runnable_admits. now apply H.
+Qed.
+
+Theorem session_is_serve rules owners hsets clock qs : settings_in_domain hsets = true ->
+  serve_session rules owners (initial_limiters hsets, clock) qs = map serve_plain qs.
+Proof. intros D. apply session_admitted. now apply initial_limiters_admit. Qed.
+
+Lemma all_P_session_plain : forall qs, all_P_session qs (map serve_plain qs) = true.
+Proof.
+  induction qs as [|q qs IH]; [reflexivity|].
+  destruct q as [[[[dtext desired] chain] outs] req]. cbn [map serve_plain all_P_session].
+  destruct (serve dtext desired chain outs req) as [t a] eqn:S.
+  rewrite (serve_meets_spec _ _ _ _ _ _ _ S), IH. reflexivity.
+Qed.
+
+Theorem session_meets_spec rules owners hsets clock qs : settings_in_domain hsets = true ->
+  all_P_session qs (serve_session rules owners (initial_limiters hsets, clock) qs) = true.
+Proof. intros D. rewrite session_is_serve by exact D. apply all_P_session_plain. Qed.
+
+(* a hook whose limiter never admits is not executed: the request is answered
+   "hook task prop error" at the first step such a hook owns, nothing runs *)
+Theorem unrunnable_hook_refused rules owners lims clock dtext desired r rest outs req :
+  extract req <> [] -> admits (lim_get lims (owner_of rules owners r)) = false ->
+  exists st', serve_lim rules owners (lims, clock) dtext desired (r :: rest) outs req
+              = ([], RFailure (msg_text dtext MPropError), st').
+Proof.
+  intros E A.
+  destruct (serve_lim rules owners (lims, clock) dtext desired (r :: rest) outs req) as [[t a] st'] eqn:S.
+  exists st'. destruct (serve_lim_gate _ _ _ _ _ _ _ _ _ _ _ S) as [G _].
+  unfold serve_gate in G. destruct (extract req); [now elim E|].
+  cbn [steps_gate fst] in G. unfold gate_of in G. rewrite <- lim_get_admits, A in G.
+  inversion G; subst. reflexivity.
+Qed.
